@@ -90,6 +90,8 @@ pub struct StoreState {
     pub in_flight: u64,
     pub max_in_flight: u64,
     pub fault_overlapped: u64,
+    /// acquisitions of a session lock (H8) before which the simulator let other tasks run
+    pub lock_delays: u64,
     pub queries: u64,
     pub query_hits: u64,
     /// the current session is a dry run: the client behaves like a dry-run remote client — uploads are accepted and
